@@ -71,11 +71,15 @@ def build_combo(c, seed_):
         md["dataset"][f"ds{i}"] = dm
     spectral_model = c["glob"] == "spectral"
     if spectral_model:
-        md["megacomplex"]["mspec"] = {"type": "spectral", "shape": {"s1": "sh1", "s2": "sh2"}}
+        # the global labels come in ANOTHER order than the species and there is one more of them (a shape no species pairs with): the
+        # clp matrix (global label x species) of the truth is neither symmetric nor square
+        md["megacomplex"]["mspec"] = {"type": "spectral", "shape": {"sx": "sh3", "s2": "sh2", "s1": "sh1"}}
         md["shape"] = {"sh1": {"type": "gaussian", "amplitude": "shp.a1", "location": "shp.l1", "width": "shp.w1"},
-                       "sh2": {"type": "gaussian", "amplitude": "shp.a2", "location": "shp.l2", "width": "shp.w2"}}
+                       "sh2": {"type": "gaussian", "amplitude": "shp.a2", "location": "shp.l2", "width": "shp.w2"},
+                       "sh3": {"type": "gaussian", "amplitude": "shp.a3", "location": "shp.l3", "width": "shp.w3"}}
         par["shp"] = [["a1", 3.0, {"vary": False}], ["l1", 610.0, {"vary": False}], ["w1", 30.0, {"vary": False}],
-                      ["a2", 2.0, {"vary": False}], ["l2", 640.0, {"vary": False}], ["w2", 25.0, {"vary": False}]]
+                      ["a2", 2.0, {"vary": False}], ["l2", 640.0, {"vary": False}], ["w2", 25.0, {"vary": False}],
+                      ["a3", 1.5, {"vary": False}], ["l3", 655.0, {"vary": False}], ["w3", 12.0, {"vary": False}]]
         md["dataset"]["ds0"]["global_megacomplex"] = ["mspec"]
     model = M(**md)
     true = Parameters.from_dict(par)
@@ -138,6 +142,16 @@ def check_combo(chk, c, seed_, recover):
                 return
         for label, exp in expected.items():
             if exp is None:
+                # full model: the estimated clp of the pair (global label, species) is 1 for equal labels and 0 otherwise
+                clp = res.data[label].clp
+                if "global_clp_label" in clp.dims:
+                    for g_ in clp.coords["global_clp_label"].values:
+                        for l in clp.coords["clp_label"].values:
+                            got = float(clp.sel(global_clp_label=g_, clp_label=l))
+                            want = 1.0 if str(g_) == str(l) else 0.0       # simulation and fit of a full model pair equal labels with weight one
+                            if not (abs(got - want) <= 1e-6):
+                                chk.violation(f"Combos[estimated full-model clp]: {key_c}", f"{label} clp[{g_},{l}] = {got}, generating value {want}", rep)
+                                return
                 continue
             clp = res.data[label].clp
             for x in exp.coords["spectral"].values:
@@ -200,7 +214,10 @@ def run(chk, tier, rng):
     chk.extra["builtin_combinations_total"] = len(combos)
     n = 12 if tier == "quick" else len(combos)
     pick = combos if n >= len(combos) else rng.sample(combos, n)
-    for i, c in enumerate(pick):
+    # always: a full model whose model matrix is index dependent (dispersed IRF) and one that is not
+    fixed = [{"decay": "sequential", "irf": "dispersed", "glob": "spectral", "baseline": "no", "osc": "no", "artifact": "no", "nds": "1", "scale": "no"},
+             {"decay": "parallel", "irf": "gaussian", "glob": "spectral", "baseline": "no", "osc": "no", "artifact": "no", "nds": "1", "scale": "yes"}]
+    for i, c in enumerate(fixed + pick):
         check_combo(chk, c, 1000 + i, recover=False)
     # recovery from a 10 % perturbation is asserted for combinations whose objective has a single basin there: a 10 % change of an
     # oscillation frequency moves the phase by several pi over the time window (the sum of squares of a sinusoid fit is multi-modal in the
